@@ -1127,6 +1127,8 @@ struct Gen<'a> {
     safe_arith: bool,
     /// no CASE below a unary minus: the 32/64-bit kind of `- CASE …` depends on the branch taken
     no_case: bool,
+    /// no INSERT/UPDATE/DELETE has been generated in this case yet: the tables still hold their initial rows
+    pristine: bool,
 }
 
 #[derive(Clone, Copy, PartialEq)]
@@ -1380,6 +1382,30 @@ impl<'a> Gen<'a> {
         }
     }
 
+    /// `column op literal` across type categories (number vs text vs boolean): a type error of the statement
+    fn cross_type_cmp(&mut self, tys: &[Ty]) -> E {
+        let c = self.rng.below(tys.len() as u64) as usize;
+        let lit = match tys[c] {
+            Ty::Int | Ty::BigInt => {
+                if self.rng.chance(1, 2) { Val::Text(b"x".to_vec()) } else { Val::Bool(true) }
+            }
+            Ty::Text => {
+                if self.rng.chance(1, 2) { Val::Int(self.rng.range(0, 3) as i128) } else { Val::Bool(false) }
+            }
+            Ty::Bool => {
+                if self.rng.chance(1, 2) { Val::Int(1) } else { Val::Text(b"t".to_vec()) }
+            }
+        };
+        let op = *self.rng.pick(&CMP_OPS);
+        self.tag(&format!("cmp.cross-type.{}", op));
+        match self.rng.below(4) {
+            0 => E::Cmp(op, Box::new(E::Lit(lit)), Box::new(E::Col(c))),
+            1 => E::Between(self.rng.chance(1, 2), Box::new(E::Col(c)), Box::new(E::Lit(lit.clone())), Box::new(E::Lit(lit))),
+            2 => E::InList(self.rng.chance(1, 2), Box::new(E::Col(c)), vec![E::Lit(lit)]),
+            _ => E::Cmp(op, Box::new(E::Col(c)), Box::new(E::Lit(lit))),
+        }
+    }
+
     fn bool_expr(&mut self, tys: &[Ty], p: Profile, depth: u32) -> E {
         if depth > 0 && !self.no_case && self.rng.chance(1, 12) {
             return self.case_expr(tys, p, 'b', depth - 1);
@@ -1589,7 +1615,21 @@ impl<'a> Gen<'a> {
         let tys = from_tys(&from, db);
         let depth = self.rng.range(0, 3) as u32;
         self.safe_arith = risky != 1;
-        let where_ = if self.rng.chance(4, 5) {
+        // a cross-category comparison as the whole WHERE of a single-table statement whose table has a row on which
+        // both sides are non-NULL: the engine meets it for certain (it checks when it evaluates)
+        let cross = !multi && self.pristine && self.rng.chance(1, 40);
+        let where_ = if cross {
+            let mut w = self.cross_type_cmp(&tys);
+            let t = match &from { From::Table(t) => *t, _ => 0 };
+            let mut cols = Vec::new();
+            expr_cols(&w, &mut cols);
+            let reachable = db[t].rows.iter().any(|r| cols.iter().all(|c| r[*c] != Val::Null));
+            if !reachable {
+                self.tags.retain(|t| !t.starts_with("cmp.cross-type"));
+                w = self.bool_expr(&tys, p, 0);
+            }
+            Some(w)
+        } else if self.rng.chance(4, 5) {
             self.tag("where");
             Some(self.bool_expr(&tys, p, depth))
         } else {
@@ -1814,6 +1854,7 @@ impl<'a> Gen<'a> {
     }
 
     fn dml(&mut self, db: &[Table], p: Profile) -> Vec<Stmt> {
+        self.pristine = false;
         let t = self.rng.below(db.len() as u64) as usize;
         let tys = db[t].tys.clone();
         let depth = self.rng.range(0, 2) as u32;
@@ -1951,7 +1992,7 @@ fn predicate_tags(kind: &str, e: &E, from: &From, db: &[Table], tags: &mut BTree
 }
 
 fn gen_line(rng: &mut Rng, nstmts: usize) -> Case {
-    let mut g = Gen { rng, tags: BTreeSet::new(), safe_arith: false, no_case: false };
+    let mut g = Gen { rng, tags: BTreeSet::new(), safe_arith: false, no_case: false, pristine: true };
     let (p, pname) = *g.rng.pick(&[
         (Profile::Small, "small"),
         (Profile::Small, "small"),
